@@ -43,14 +43,35 @@ func registerTimeIntrinsics(P *Program) {
 	in["time.Now"] = func(fr *frame, args []Value) Value {
 		m := fr.m
 		clk := m.clockRead()
-		// wall: hasMonotonic | seconds field (fixed) | nsec 0
-		wall := m.tb.Const(64, hasMonotonic|(uint64(1700000000-1_420_070_400+59_453_308_800-59_453_308_800)<<30))
-		var loc Value = (*Value)(nil)
-		if tp := m.P.Pkgs["time"]; tp != nil {
-			if g, ok := tp.Members["Local"]; ok {
-				_ = g
+		// wall clock: symbolic seconds (33-bit field, non-decreasing), nsec 0, monotonic bit set
+		var sec *Term
+		if m.out == nil {
+			sec = m.tb.Const(64, 4_400_000_000)
+		} else {
+			sec = m.newEnvVar("wallsec", BV(64))
+			m.envVars = append(m.envVars, sec)
+			prev, _ := m.side["wallsec.prev"].(*Term)
+			if prev == nil {
+				prev = m.tb.Const(64, 4_300_000_000) // ~2021 in seconds since 1885
 			}
+			if m.model != nil {
+				pv := uint64(4_300_000_000)
+				if x, ok := m.evalUnderModelNoSolve(prev); ok {
+					pv = x
+				}
+				md := make(Model, len(m.model)+1)
+				for k, x := range m.model {
+					md[k] = x
+				}
+				md[sec.Name] = pv
+				m.setModel(md)
+			}
+			m.addPC(m.tb.Cmp(OpULe, prev, sec))
+			m.addPC(m.tb.Cmp(OpULe, sec, m.tb.Const(64, 5_000_000_000)))
+			m.side["wallsec.prev"] = sec
 		}
+		wall := m.tb.Bin(OpBOr, m.tb.Const(64, hasMonotonic), m.tb.Bin(OpShl, sec, m.tb.Const(64, 30)))
+		var loc Value = (*Value)(nil)
 		return Struct{wall, clk, loc}
 	}
 	in["time.runtimeNano"] = func(fr *frame, args []Value) Value {
